@@ -24,6 +24,7 @@ static int dflt_idx = 0;      /* index in hps of the current default heap */
 static int padding = 0;
 static long nops = 0;
 static int word_offsets = 0;    /* only offsets that keep the result word-aligned (debug builds reject other pointers) */
+static void maybe_clock(void);
 static long clock_on = 0;      /* > 0: advance the virtual clock by up to this many ms between calls */
 
 /* ---- op table */
@@ -133,9 +134,16 @@ static const size_t size_menu[] = { 0, 1, 7, 8, 9, 15, 16, 17, 24, 32, 48, 64, 1
 #define NMENU (sizeof(size_menu)/sizeof(size_menu[0]))
 static size_t big_budget = 0;      /* bytes currently in blocks > 1 MiB (kept bounded) */
 static size_t max_size = 104857600;
+static int big_sizes = 0;      /* profile "big": mostly objects of one to five arena blocks (17 - 140 MiB) next to small ones */
 static size_t pick_size(void) {
   uint64_t r = vf_randn(100);
   size_t n;
+  if (big_sizes && r < 45) {
+    static const size_t bs[] = {17u << 20, 33u << 20, 40u << 20, 70u << 20, 100u << 20, 130u << 20, 20u << 20, 66u << 20};
+    n = bs[vf_randn(8)] + (size_t)vf_randn(65536);
+    if (big_budget + n > 700u * 1048576u) n = 1000 + (size_t)vf_randn(100000);
+    return n;
+  }
   if (r < 45) n = size_menu[vf_randn(22)];                 /* small */
   else if (r < 75) n = size_menu[22 + vf_randn(9)];        /* medium / large */
   else if (r < 80) n = size_menu[31 + vf_randn(NMENU - 31)]; /* large / huge */
@@ -144,7 +152,7 @@ static size_t pick_size(void) {
   else n = (size_t)vf_randn(3000000);
   if (vf_randn(8) == 0 && n > 16) n += (size_t)vf_randn(17) - 8;
   if (n > max_size) n = max_size;
-  if (n > 1048576 && big_budget + n > 300u * 1048576u) n = 1000 + (size_t)vf_randn(100000);
+  if (n > 1048576 && big_budget + n > (big_sizes ? 700u : 300u) * 1048576u) n = 1000 + (size_t)vf_randn(100000);
   return n;
 }
 static size_t pick_align(size_t n) {
@@ -963,12 +971,18 @@ static void do_collect(int force) {
   log_ret_begin("collect", &r); log_obs(-1, -1, 2); log_ret_end();
 }
 static void free_all_of_thread(int heapid_or_all) {
-  for (int s = 0; s < MAXSLOTS; s++) if (slots[s].p && (heapid_or_all < 0 || slots[s].heap == heapid_or_all)) op_free_slot(s, FR_free);
+  for (int s = 0; s < MAXSLOTS; s++) if (slots[s].p && (heapid_or_all < 0 || slots[s].heap == heapid_or_all)) { op_free_slot(s, FR_free); maybe_clock(); }
 }
 static int wl_scale = 1;   /* divide the block counts of the OS-level workloads (fault enumeration uses smaller rounds) */
+static void maybe_clock(void) {
+#if defined(VF_SHIM)
+  if (clock_on > 0 && vf_randn(6) == 0) vf_clock_advance(1 + (long)vf_randn((uint64_t)clock_on));
+#endif
+}
 static void alloc_many(int count, size_t lo, size_t hi, int ops_mix) {
   if (wl_scale > 1 && count > 3) { count = count / wl_scale; if (count < 3) count = 3; }
   for (int i = 0; i < count; i++) {
+    maybe_clock();
     size_t n = lo + (size_t)vf_randn(hi - lo + 1);
     int op = A_malloc;
     if (ops_mix) { static const int mix[] = {A_malloc, A_zalloc, A_calloc, A_malloc_aligned, A_malloc, A_new_nothrow, A_posix_memalign}; op = mix[vf_randn(7)]; }
@@ -1027,6 +1041,7 @@ static void run_rounds(const char* wl, int rounds, int recover_after /* round af
   }
 }
 /* C18: free whole pages / whole segments / everything, then ordinary activity under a moving virtual clock */
+static int c18_midclock = 0, c18_gentle = 0;
 static void run_c18(const char* pattern, long step_ms) {
 #if defined(VF_SHIM)
   int immediate = (mi_option_get(mi_option_purge_delay) == 0);
@@ -1038,15 +1053,36 @@ static void run_c18(const char* pattern, long step_ms) {
   vf_clock_advance(3);
   /* phase 2: free (whole pages while the segment stays / whole segments / everything) */
   int keep_every = (!strcmp(pattern, "all") ? 0 : 4);
-  int i = 0;
+  int tofree[MAXSLOTS], nf = 0;
   for (int s = 0; s < MAXSLOTS; s++) if (slots[s].p) {
     int keep = 0;
     if (keep_every && !strcmp(pattern, "pages")) keep = (slots[s].id > 150 && slots[s].id <= 200) || (slots[s].id % 40 == 0);   /* free whole pages, keep the segment alive */
     if (keep_every && !strcmp(pattern, "segments")) keep = (slots[s].id > 92);                                   /* whole segments go back, the last stays */
-    i++;
-    if (!keep) { op_free_slot(s, FR_free); if (immediate) ev_areas(); }
+    if (!keep) tofree[nf++] = s;
+  }
+  /* free in allocation order, so that the blocks of one page are freed together */
+  for (int i = 1; i < nf; i++) { int x = tofree[i], j = i - 1; while (j >= 0 && slots[tofree[j]].id > slots[x].id) { tofree[j + 1] = tofree[j]; j--; } tofree[j + 1] = x; }
+  for (int i = 0; i < nf; i++) {
+    /* optionally the clock moves past the delay in the middle of the free phase and right before its last page is freed: the pending
+       purge of what was freed before has then expired when the next page is freed */
+    if (c18_midclock && (i == nf / 3 || i >= nf - 8)) vf_clock_advance(step_ms);   /* (before each of the last frees: whatever is pending has expired) */
+    op_free_slot(tofree[i], FR_free); if (immediate) ev_areas();
   }
   ev_mark("t0");
+  if (c18_gentle) {
+    /* gentle activity: only blocks of a class that already has a page with room (no page is allocated or freed), and non-forced
+       collects; valid when nothing is pending after the free phase (the clock moved before each of the last frees) */
+    int keepers[8]; int nk = 0;
+    for (int k = 0; k < 10; k++) {
+      vf_clock_advance(step_ms);
+      int ns_ = op_alloc_ex(A_malloc, 8100, 0, 0, 0, 0); if (ns_ >= 0 && nk < 8) keepers[nk++] = ns_;
+      ev_areas(); vf_clock_advance(step_ms);
+      if (nk > 1) { op_free_slot(keepers[--nk], FR_free); ev_areas(); }
+      do_collect(0); ev_areas();
+    }
+    ev_mark("c18check");
+    return;
+  }
   /* phase 3: ordinary activity: allocate / free blocks of size classes not used before, non-forced collects, clock moves between calls */
   static const size_t fresh[] = {48, 320, 3000, 20000, 48, 70000, 320, 200000, 3000, 48, 20000, 320};
   int held[12]; int nh = 0;
